@@ -25,6 +25,7 @@ use std::sync::OnceLock;
 use vcore::{Cfg, Check, Cx, Finding, Meta, SUB_SETUP, Tier, Value, Violation, json};
 
 mod alloc;
+mod doubling;
 mod model;
 mod real;
 
@@ -448,14 +449,24 @@ impl Check for C15 {
         "C15"
     }
     fn units(&self, cfg: &Cfg) -> usize {
-        plan(cfg.tier).units.len()
+        doubling::units().len() + plan(cfg.tier).units.len()
     }
     fn run_unit(&self, unit: usize, cx: &mut Cx) {
+        // the (cheap) doubling family comes first and does not need the plan
+        let du = doubling::units();
+        if unit < du.len() {
+            return doubling::run(&du[unit], cx);
+        }
         let p = plan(cx.cfg.tier);
-        let u = p.units[unit];
+        let u = p.units[unit - du.len()];
         dispatch(&u, p, cx);
     }
     fn describe(&self, cfg: &Cfg, unit: usize, sub: u64) -> Value {
+        let du = doubling::units();
+        if unit < du.len() {
+            return doubling::describe(&du[unit], sub);
+        }
+        let unit = unit - du.len();
         let p = plan(cfg.tier);
         let u = p.units[unit];
         let root = &p.searches[u.search].root;
@@ -478,6 +489,9 @@ impl Check for C15 {
     }
     fn matches(&self, f: &Finding, v: &Violation) -> bool {
         let c = &v.case;
+        if doubling::matches(f, v) {
+            return true;
+        }
         match f.matcher.as_str() {
             // N2: Rust-side contains/index on List<Option<u32>> compares the
             // caller's `&Option<u32>` as if it were a `&RotoOption<u32>`. In that
@@ -585,6 +599,15 @@ impl Check for C15 {
                     "seeds searched to depth 2 (one-handle seeds of length 4, 8, 16: depth 3), not 4; Option<u32> only from the empty state to depth 3; a new list always goes to the lowest free slot and is only compared when no slot is free; literals are [] [a] [0,1] [1,0]"
                 } else {
                     "seeds searched to depth 3 (one-handle seeds of length 4, 8, 16: depth 4), not 6; Option<u32> from the empty state to depth 5, not 6; a new list always goes to the lowest free slot and is only compared when no slot is free; literals are [] [a] [0,1] [1,0]"
+                },
+                "zero_sized_doubling_family": {
+                    "element_types": ["() held by Rust as List<()> (script-made list: no clone function)", "() inside one script", "record U { u: () } inside one script"],
+                    "start_lengths": [1, 3],
+                    "doublings": doubling::MAX_DOUBLINGS,
+                    "sides": ["Rust concat", "script concat", "script +", "alternating"],
+                    "also": "a list of exactly 2^64 - 1 units (built by Rust / by script): len, is_empty, capacity, get(MAX-1), get(MAX), contains, index, swap, concat with [], concat/+ with [()], push",
+                    "oracle": "exact length (u128 model) or a loud failure; a Rust-side panic is loud; a wrong length or the death of the host on a script-issued operation is a violation",
+                    "sequences": doubling::units().len(),
                 },
                 "searches": p.searches.len(),
                 "examples": per_search,
